@@ -64,6 +64,8 @@ def main():
         cp = os.path.join(fmlib.VERIF, "corpus", pid + ".txt")
         if os.path.exists(cp) and not args.replay:
             lines = [l.strip() for l in open(cp) if l.strip() and not l.startswith("#")] + lines
+        if not args.replay:
+            lines = lines + gen.alias_lines(lines, random.Random(seed * 7919 + 13))
         seen, uniq = set(), []
         for l in lines:
             if l not in seen: seen.add(l); uniq.append(l)
@@ -125,6 +127,18 @@ def main():
             elif r != "nan" or True:
                 why = suite.oracle(fn, tag, a, r)
                 if why: oracle_fail.append((line, v.name, io, why))
+    # C08: a result that differs between two configurations selecting the same square-root algorithm is itself a
+    # violating input (the value depends on compiler / level / standard)
+    if getattr(suite, "cross_leg", False):
+        for i, line in enumerate(lines):
+            seen_cfg = {}
+            for v, out, info, reports in legs:
+                if v.san or i not in out or out[i] in ("skip", "unknown"): continue
+                key = v.backend if has_dflt else "any"
+                if key in seen_cfg and seen_cfg[key][1] != out[i]:
+                    oracle_fail.append((line, v.name, out[i], "the result depends on the configuration: %s gives %s, %s gives %s" % (seen_cfg[key][0], seen_cfg[key][1], v.name, out[i])))
+                    break
+                seen_cfg.setdefault(key, (v.name, out[i]))
     ub_reports = [r for v, out, info, reports in legs for r in reports]
     # relations between results of different inputs (monotonicity, symmetry, periodicity, type agreement)
     post = getattr(suite, "post", None)
@@ -143,7 +157,7 @@ def main():
     ce_stats = None
     if getattr(suite, "constexpr", False):
         mo_ab = model_by_be.get("ab") or fmlib.run_parallel(driver, [l.replace(":dflt", ":ab") for l in lines])[0]
-        ce_stats, ce_fail = cexpr.run(lines, mo_ab, suites.parse_line, tier, 350 if tier == "quick" else 4000)
+        ce_stats, ce_fail = cexpr.run(lines, mo_ab, suites.parse_line, tier, 350 if tier == "quick" else 4000, priority=[d[0] for d in diverge])
         for f in ce_fail:
             oracle_fail.append((f["input"] or "<translation unit>", "constant-evaluation " + f["config"], "compile error",
                                 "not accepted as a constant expression equal to the run-time/model value %s: %s" % (f.get("expected"), f["error"])))
@@ -159,7 +173,7 @@ def main():
     if not violations:
         if diverge:
             # the correspondence is broken and no recorded input violates the property: search deeper
-            found = deep_search(suite, pid, tier, rng)
+            found = deep_search(suite, pid, tier, rng) or neighbour_search(suite, diverge, legs, rng, tier)
             if found: violations += found
             else:
                 violations.append({"kind": "correspondence", "suite": pid, "first_divergences": [
@@ -262,6 +276,55 @@ def lean_obligations(suite, tier):
         if r.returncode != 0:
             res["ok"] = False; res["failed"].append("leanchecker " + mod)
     return res
+
+def neighbour_search(suite, diverge, legs, rng, tier):
+    """the model and the implementation disagree on some inputs, none of which violates the property:
+    look for a violating input in the neighbourhood of the diverging ones (arguments perturbed, scaled, swapped,
+    negated) on the legs that diverged, judged by the suite's executable statement of the property"""
+    by_leg = collections.defaultdict(list)
+    for line, leg, io, mo in diverge: by_leg[leg].append(line)
+    budget = 40000 if tier == "quick" else 400000
+    found = []
+    for v, out, info, reports in legs:
+        if v.san or v.name not in by_leg: continue
+        src = by_leg[v.name]; rng.shuffle(src)
+        cand, seen = [], set()
+        for line in src[:400]:
+            head = line.split()[0]
+            try: a = [int(x) for x in line.split()[1:]]
+            except ValueError: continue
+            for _ in range(max(1, budget // max(1, min(len(src), 400)))):
+                b = list(a)
+                i = rng.randrange(len(b)) if b else 0
+                if not b: break
+                c = rng.randrange(8)
+                if c == 0: b[i] += rng.choice((-3, -2, -1, 1, 2, 3))
+                elif c == 1: b[i] += rng.randrange(-4096, 4097)
+                elif c == 2: b[i] = b[i] * 2 + rng.choice((0, 1))
+                elif c == 3: b[i] = b[i] // 2
+                elif c == 4: b[i] = -b[i]
+                elif c == 5 and len(b) > 1: b[0], b[1] = b[1], b[0]
+                elif c == 6: b[i] += rng.randrange(-2**20, 2**20)
+                else: b = [x + rng.choice((-1, 0, 1)) for x in b]
+                if any(abs(x) > NANP_LIMIT for x in b): continue
+                l2 = head + " " + " ".join(str(x) for x in b)
+                if l2 not in seen: seen.add(l2); cand.append(l2)
+        if not cand: continue
+        exe, _ = fmlib.build_harness(v)
+        o, rc, err = fmlib.run_parallel(exe, cand)
+        for l2, io in zip(cand, o):
+            fn, tag, a = suites.parse_line(l2)
+            if not suite.in_domain(fn, tag, a): continue
+            r = suites.parse_out(io)
+            if r is None: continue
+            why = suite.oracle(fn, tag, a, r)
+            if why:
+                found.append({"kind": "input", "input": l2, "leg": v.name, "observed": io, "why": why + " (found by the neighbourhood search around diverging inputs)"})
+                if len(found) >= 10: return found
+        if found: return found
+    return found
+
+NANP_LIMIT = 2**63 - 1
 
 def deep_search(suite, pid, tier, rng):
     """search the implementation for a property-violating input beyond the suite's own inputs"""
